@@ -74,41 +74,108 @@ def _chunks_stop(k: Kernel, fn):
 
 
 # ---- BatchVolumeSampler ------------------------------------------------------------------------
-def _iter_loop(fn: ast.FunctionDef) -> ast.For:
-    loop = find_for(fn, 0)
-    if ast.unparse(loop.target) != "idx" or ast.unparse(loop.iter) != "self.sampler":
-        raise Untranslatable("loop `for idx in self.sampler` not found")
-    return loop
+def _effective_iter(tree) -> ast.FunctionDef:
+    """`BatchVolumeSampler.__iter__` with helper extraction undone: when its body is just `yield from helper(args…)` /
+    `return helper(args…)` (a module-level generator function or a method of the class) the helper's body is returned with
+    its parameters replaced by the call-site arguments (`indices` -> `self.sampler`, …).  Laziness is unchanged by either
+    form: nothing of a generator function's body runs before the first `next`."""
+    it = find_function(tree, "BatchVolumeSampler.__iter__")
+    body = [st for st in it.body if not (isinstance(st, ast.Expr) and isinstance(st.value, ast.Constant))]
+    call = None
+    if len(body) == 1:
+        st = body[0]
+        if isinstance(st, ast.Expr) and isinstance(st.value, ast.YieldFrom) and isinstance(st.value.value, ast.Call):
+            call = st.value.value
+        elif isinstance(st, ast.Return) and isinstance(st.value, ast.Call):
+            call = st.value
+    if call is None:
+        return it
+    helper = None
+    if isinstance(call.func, ast.Name):
+        helper = next((n for n in tree.body if isinstance(n, ast.FunctionDef) and n.name == call.func.id), None)
+    elif isinstance(call.func, ast.Attribute) and ast.unparse(call.func.value) in ("self", "BatchVolumeSampler", "type(self)"):
+        cls = _class(tree, "BatchVolumeSampler")
+        helper = next((n for n in cls.body if isinstance(n, ast.FunctionDef) and n.name == call.func.attr), None)
+    if helper is None:
+        raise Untranslatable(f"`__iter__` delegates to `{ast.unparse(call.func)}`, which is not a function of this module")
+    params = [a.arg for a in helper.args.args if a.arg not in ("self", "cls")]
+    env = {}
+    for pname, a in zip(params, call.args):
+        env[pname] = a
+    for kw in call.keywords:
+        if kw.arg is None:
+            raise Untranslatable("**kwargs in the call of the iteration helper")
+        env[kw.arg] = kw.value
+    if any(ast.unparse(a) == "self" for a in env.values()):
+        raise Untranslatable("the iteration helper receives `self`")
+    stored = {n.id for n in ast.walk(helper) if isinstance(n, ast.Name) and isinstance(n.ctx, ast.Store)}
+    if stored & set(env):
+        raise Untranslatable("the iteration helper rebinds one of its parameters")
+    new_body = [_sub(env, st) for st in helper.body]
+    fn = ast.FunctionDef(name="__iter__", args=it.args, body=new_body, decorator_list=[], returns=None, type_comment=None,
+                         lineno=it.lineno, col_offset=0)
+    try:
+        fn.type_params = []
+    except Exception:  # noqa: BLE001
+        pass
+    return ast.fix_missing_locations(fn)
 
 
-_bvs_binds = {"len(batch)": "lenb", "self.batch_size": "bs", "idx": "idx", "next_value": "nv"}
-
-
-def _bvs_ifs(fn):
-    loop = _iter_loop(fn)
-    if not (isinstance(loop.body[0], ast.Expr) and ast.unparse(loop.body[0]) == "batch.append(idx)"):
+def _bvs_iter_shape(tree):
+    """(binds, yield-if, advance-if, rebuilt?) of the effective `__iter__`, whatever its locals are called:
+    `E = iter(self.end_of_volume); NV = next(E, None); B = []; for I in self.sampler: B.append(I); if c1: yield B; B = [];
+    if c2: NV = next(E, NV)` and the trailing `if len(B) > 0: yield B`."""
+    fn = _effective_iter(tree)
+    body = [st for st in fn.body if not (isinstance(st, ast.Expr) and isinstance(st.value, ast.Constant))]
+    loops = [st for st in body if isinstance(st, ast.For)]
+    if len(loops) != 1 or not isinstance(loops[0].target, ast.Name):
+        raise Untranslatable("expected one `for idx in …` loop in `BatchVolumeSampler.__iter__`")
+    loop = loops[0]
+    idx = loop.target.id
+    if ast.unparse(loop.iter) != "self.sampler":
+        raise Untranslatable(f"the loop runs over `{ast.unparse(loop.iter)}`, not over `self.sampler`")
+    st0 = loop.body[0]
+    if not (isinstance(st0, ast.Expr) and isinstance(st0.value, ast.Call) and isinstance(st0.value.func, ast.Attribute)
+            and st0.value.func.attr == "append" and isinstance(st0.value.func.value, ast.Name)
+            and len(st0.value.args) == 1 and ast.unparse(st0.value.args[0]) == idx):
         raise Untranslatable("`batch.append(idx)` is not the first statement of the loop")
+    b = st0.value.func.value.id
     ifs = [st for st in loop.body if isinstance(st, ast.If)]
     if len(ifs) != 2 or len(loop.body) != 3:
         raise Untranslatable("expected exactly `append; if …: yield; if …: advance` in the loop")
     y, adv = ifs
-    if not (len(y.body) == 2 and isinstance(y.body[0], ast.Expr) and ast.unparse(y.body[0]) == "yield batch"
-            and ast.unparse(y.body[1]) == "batch = []" and not y.orelse):
+    if not (len(y.body) == 2 and isinstance(y.body[0], ast.Expr) and ast.unparse(y.body[0]) == f"yield {b}"
+            and ast.unparse(y.body[1]) == f"{b} = []" and not y.orelse):
         raise Untranslatable("first `if` is not `yield batch; batch = []`")
-    if not (len(adv.body) == 1 and ast.unparse(adv.body[0]).replace(" ", "") == "next_value=next(end_of_volume,next_value)"
-            and not adv.orelse):
+    a0 = adv.body[0] if len(adv.body) == 1 else None
+    if not (isinstance(a0, ast.Assign) and len(a0.targets) == 1 and isinstance(a0.targets[0], ast.Name)
+            and isinstance(a0.value, ast.Call) and ast.unparse(a0.value.func) == "next" and len(a0.value.args) == 2
+            and isinstance(a0.value.args[0], ast.Name) and ast.unparse(a0.value.args[1]) == a0.targets[0].id and not adv.orelse):
         raise Untranslatable("second `if` is not `next_value = next(end_of_volume, next_value)`")
-    return y, adv
+    nv, e = a0.targets[0].id, a0.value.args[0].id
+    pre = body[:body.index(loop)]
+    rebuilt = any(isinstance(st, ast.Assign) and ast.unparse(st.targets[0]) == e
+                  and ast.unparse(st.value).replace(" ", "") == "iter(self.end_of_volume)" for st in pre)
+    first = any(isinstance(st, ast.Assign) and ast.unparse(st.targets[0]) == nv
+                and ast.unparse(st.value).replace(" ", "") == f"next({e},None)" for st in pre)
+    fresh_batch = any(isinstance(st, ast.Assign) and ast.unparse(st.targets[0]) == b and ast.unparse(st.value) == "[]" for st in pre)
+    last = body[-1]
+    tail_ok = (isinstance(last, ast.If) and ast.unparse(last.test).replace(" ", "") == f"len({b})>0"
+               and len(last.body) == 1 and ast.unparse(last.body[0]) == f"yield {b}" and not last.orelse)
+    binds = {f"len({b})": "lenb", "self.batch_size": "bs", idx: "idx", nv: "nv"}
+    return binds, y, adv, (rebuilt and first and fresh_batch and tail_ok), fn
 
 
 def _bvs_yield(k: Kernel, fn):
-    y, _ = _bvs_ifs(fn)
-    return emit_def(k.name, k.params, [], ExprTr(_bvs_binds).bool(y.test), "Bool")
+    from ..gen import REPO
+    binds, y, _, _, _ = _bvs_iter_shape(parse_file(REPO / S))
+    return emit_def(k.name, k.params, [], ExprTr(binds).bool(y.test), "Bool")
 
 
 def _bvs_advance(k: Kernel, fn):
-    _, adv = _bvs_ifs(fn)
-    return emit_def(k.name, k.params, [], ExprTr(_bvs_binds).bool(adv.test), "Bool")
+    from ..gen import REPO
+    binds, _, adv, _, _ = _bvs_iter_shape(parse_file(REPO / S))
+    return emit_def(k.name, k.params, [], ExprTr(binds).bool(adv.test), "Bool")
 
 
 # `BatchVolumeSampler.__init__` bookkeeping.  Where the code lives (inline loop, list comprehension / `sum(...)`, a private
@@ -359,27 +426,25 @@ def _c13_extra():
     from ..gen import REPO
 
     status, parts = {}, []
-    # --- structural facts of BatchVolumeSampler.__iter__
+    # --- structural facts of BatchVolumeSampler.__iter__ (helper extraction followed, names of locals irrelevant)
     try:
-        fn = find_function(parse_file(REPO / S), "BatchVolumeSampler.__iter__")
-        writes = self_writes(fn)
-        rebuilt = any(isinstance(st, ast.Assign) and ast.unparse(st.targets[0]) == "end_of_volume"
-                      and ast.unparse(st.value).replace(" ", "") == "iter(self.end_of_volume)" for st in fn.body)
-        first = any(isinstance(st, ast.Assign) and ast.unparse(st.targets[0]) == "next_value"
-                    and ast.unparse(st.value).replace(" ", "") == "next(end_of_volume,None)" for st in fn.body)
-        tail_ok = (isinstance(fn.body[-1], ast.If) and ast.unparse(fn.body[-1].test).replace(" ", "") == "len(batch)>0"
-                   and ast.unparse(fn.body[-1].body[0]) == "yield batch")
+        tree = parse_file(REPO / S)
+        eff = _effective_iter(tree)
+        writes = sorted(set(self_writes(eff)) | set(self_writes(find_function(tree, "BatchVolumeSampler.__iter__"))))
         parts.append("/-- attributes of `self` that `BatchVolumeSampler.__iter__` assigns / advances / mutates -/\n"
                      f"def bvs_iter_self_writes : List String := {_lean_strs(writes)}\n")
-        parts.append("/-- `end_of_volume = iter(self.end_of_volume); next_value = next(end_of_volume, None)` at the top of\n"
-                     "`__iter__`, trailing `if len(batch) > 0: yield batch` -/\n"
-                     f"def bvs_iter_rebuilds : Bool := {'true' if (rebuilt and first and tail_ok) else 'false'}\n")
         status["bvs_iter_self_writes"] = "translated"
+    except Untranslatable as e:
+        parts.append(f"/-- SKIPPED ({e}) -/\ndef bvs_iter_self_writes : List String := []\n")
+        status["bvs_iter_self_writes"] = f"skipped: {e}"
+    try:
+        _, _, _, rebuilds, _ = _bvs_iter_shape(parse_file(REPO / S))
+        parts.append("/-- `end_of_volume = iter(self.end_of_volume); next_value = next(end_of_volume, None); batch = []` before the\n"
+                     "loop over `self.sampler`, trailing `if len(batch) > 0: yield batch` -/\n"
+                     f"def bvs_iter_rebuilds : Bool := {'true' if rebuilds else 'false'}\n")
         status["bvs_iter_rebuilds"] = "translated"
     except Untranslatable as e:
-        parts.append(f"/-- SKIPPED ({e}) -/\ndef bvs_iter_self_writes : List String := []\n"
-                     "def bvs_iter_rebuilds : Bool := true\n")
-        status["bvs_iter_self_writes"] = f"skipped: {e}"
+        parts.append(f"/-- SKIPPED ({e}) -/\ndef bvs_iter_rebuilds : Bool := true\n")
         status["bvs_iter_rebuilds"] = f"skipped: {e}"
     # --- DistributedSequentialSampler.__iter__/__len__ : plain views of self.indices
     try:
@@ -399,14 +464,15 @@ def _c13_extra():
         tree = parse_file(REPO / S)
         parts.append(_iter_tables(tree))
         for k in ("bvs_iter_self_reads", "bvs_other_method_writes", "bvs_init_iterator_attrs", "seq_method_writes",
-                  "bvs_len_is_num_batches"):
+                  "bvs_len_is_num_batches", "seq_init_iterator_attrs"):
             status[k] = "translated"
     except Untranslatable as e:
         parts.append(f"/-- SKIPPED ({e}) -/\ndef bvs_iter_self_reads : List String := []\n"
                      "def bvs_other_method_writes : List String := []\ndef bvs_init_iterator_attrs : List String := []\n"
-                     "def seq_method_writes : List String := []\ndef bvs_len_is_num_batches : Bool := true\n")
+                     "def seq_method_writes : List String := []\ndef bvs_len_is_num_batches : Bool := true\n"
+                     "def seq_init_iterator_attrs : List String := []\n")
         for k in ("bvs_iter_self_reads", "bvs_other_method_writes", "bvs_init_iterator_attrs", "seq_method_writes",
-                  "bvs_len_is_num_batches"):
+                  "bvs_len_is_num_batches", "seq_init_iterator_attrs"):
             status[k] = f"skipped: {e}"
     # --- DistributedSequentialSampler.__init__: limit, then chunk, then select this rank's chunk
     try:
@@ -573,15 +639,38 @@ _ITER_FUNCS = {"iter", "map", "zip", "filter", "enumerate", "reversed"}
 
 
 def _is_iterator_expr(v) -> bool:
-    """does the expression evaluate to a one-shot iterator (or advance one)?"""
-    for n in ast.walk(v):
-        if isinstance(n, ast.GeneratorExp):
-            return True
-        if isinstance(n, ast.Call):
-            f = ast.unparse(n.func)
-            if f in _ITER_FUNCS or f == "next" or f.startswith("itertools."):
-                return True
+    """does the expression itself evaluate to a one-shot iterator?  (a generator expression consumed on the spot by
+    `sum(...)`, `list(...)`, … does not make the stored value an iterator)"""
+    if isinstance(v, ast.GeneratorExp):
+        return True
+    if isinstance(v, ast.IfExp):
+        return _is_iterator_expr(v.body) or _is_iterator_expr(v.orelse)
+    if isinstance(v, ast.BoolOp):
+        return any(_is_iterator_expr(x) for x in v.values)
+    if isinstance(v, ast.NamedExpr):
+        return _is_iterator_expr(v.value)
+    if isinstance(v, ast.Call):
+        f = ast.unparse(v.func)
+        return f in _ITER_FUNCS or f.startswith("itertools.")
     return False
+
+
+def _init_iterator_attrs(init: ast.FunctionDef) -> list[str]:
+    """attributes of `self` that `__init__` binds to a one-shot iterator, or advances with `next`"""
+    iters = []
+    for n in ast.walk(init):
+        if isinstance(n, (ast.Assign, ast.AnnAssign)) and n.value is not None:
+            tgs = n.targets if isinstance(n, ast.Assign) else [n.target]
+            for t in tgs:
+                pairs = list(zip(t.elts, n.value.elts)) if (isinstance(t, ast.Tuple) and isinstance(n.value, ast.Tuple)
+                                                            and len(t.elts) == len(n.value.elts)) else [(t, n.value)]
+                for tt, vv in pairs:
+                    a = _self_attr(tt) if isinstance(tt, (ast.Attribute, ast.Subscript)) else None
+                    if a and _is_iterator_expr(vv):
+                        iters.append(a)
+        if isinstance(n, ast.Call) and ast.unparse(n.func) == "next" and n.args and _self_attr(n.args[0]):
+            iters.append(_self_attr(n.args[0]))
+    return sorted(set(iters))
 
 
 def self_reads(fn: ast.FunctionDef) -> list[str]:
@@ -599,34 +688,68 @@ def _class(tree, name) -> ast.ClassDef:
     raise Untranslatable(f"class {name} not found")
 
 
+def _unmangle(attr: str) -> str:
+    return attr[len("_BatchVolumeSampler"):] if attr.startswith("_BatchVolumeSampler__") else attr
+
+
+def _len_returns_init_count(tree) -> bool:
+    """Is what `__len__` returns the batch count computed in `__init__` — whatever the attribute is called?
+    true: `__len__` is `return self.A` and the `math.ceil` sum of `__init__` (inline, or returned by a helper) flows into
+    `self.A`; false: `__len__` returns something else; Untranslatable when the flow cannot be followed."""
+    ln = find_function(tree, "BatchVolumeSampler.__len__")
+    body = [st for st in ln.body if not (isinstance(st, ast.Expr) and isinstance(st.value, ast.Constant))]
+    if not (len(body) == 1 and isinstance(body[0], ast.Return) and body[0].value is not None):
+        raise Untranslatable("`__len__` is not a single return")
+    a = _self_attr(body[0].value) if isinstance(body[0].value, ast.Attribute) else None
+    if a is None or ast.unparse(body[0].value) != f"self.{a}":
+        return False
+    a = _unmangle(a)
+    scope = _bvs_init_scope(tree)
+    init, env0 = scope[0]
+    helpers = {f.name: (f, env) for f, env in scope[1:]}
+
+    def has_ceil(e):
+        return any(isinstance(n, ast.Call) and ast.unparse(n.func) == "math.ceil" for n in ast.walk(e))
+
+    for st in all_stmts(init):
+        if isinstance(st, ast.AugAssign) and _unmangle(_self_attr(st.target) or "") == a and has_ceil(_sub(env0, st.value)):
+            return True
+        if isinstance(st, ast.Assign) and len(st.targets) == 1:
+            tg, v = st.targets[0], st.value
+            if isinstance(tg, ast.Attribute) and _unmangle(_self_attr(tg) or "") == a and has_ceil(_sub(env0, v)):
+                return True
+            if isinstance(tg, ast.Tuple) and isinstance(v, ast.Call) and isinstance(v.func, ast.Attribute) \
+                    and v.func.attr in helpers:
+                pos = [k for k, t in enumerate(tg.elts) if isinstance(t, ast.Attribute) and _unmangle(_self_attr(t) or "") == a]
+                h, henv = helpers[v.func.attr]
+                rets = [r.value for r in ast.walk(h) if isinstance(r, ast.Return) and r.value is not None]
+                if pos and len(rets) == 1 and isinstance(rets[0], ast.Tuple) and len(rets[0].elts) == len(tg.elts) \
+                        and has_ceil(_sub(henv, rets[0].elts[pos[0]])):
+                    return True
+    stored = {_unmangle(x) for f, _ in scope for x in self_writes(f)}
+    if a not in stored:
+        return False
+    raise Untranslatable(f"cannot follow how `self.{a}` is computed in `__init__`")
+
+
 def _iter_tables(tree) -> str:
     bvs, seq = _class(tree, "BatchVolumeSampler"), _class(tree, "DistributedSequentialSampler")
-    it = find_function(tree, "BatchVolumeSampler.__iter__")
-    reads = [a for a in self_reads(it)]
+    it = _effective_iter(tree)
+    reads = sorted(set(self_reads(it)) | set(self_reads(find_function(tree, "BatchVolumeSampler.__iter__"))))
     other = []
     for f in bvs.body:
         if isinstance(f, (ast.FunctionDef, ast.AsyncFunctionDef)) and f.name != "__init__":
             other += [f"{f.name}:{a}" for a in self_writes(f)]
-    init = find_function(tree, "BatchVolumeSampler.__init__")
-    iters = []
-    for n in ast.walk(init):
-        if isinstance(n, (ast.Assign, ast.AnnAssign, ast.AugAssign)):
-            tgs = n.targets if isinstance(n, ast.Assign) else [n.target]
-            if n.value is not None and _is_iterator_expr(n.value):
-                for t in tgs:
-                    for sub in ast.walk(t):
-                        a = _self_attr(sub)
-                        if a:
-                            iters.append(a)
-        if isinstance(n, ast.Call) and ast.unparse(n.func) == "next" and n.args and _self_attr(n.args[0]):
-            iters.append(_self_attr(n.args[0]))
+    iters = _init_iterator_attrs(find_function(tree, "BatchVolumeSampler.__init__"))
+    seq_iters = _init_iterator_attrs(find_function(tree, "DistributedSequentialSampler.__init__"))
     seqw = []
     for f in seq.body:
         if isinstance(f, (ast.FunctionDef, ast.AsyncFunctionDef)) and f.name != "__init__":
             seqw += [f"{f.name}:{a}" for a in self_writes(f)]
-    ln = find_function(tree, "BatchVolumeSampler.__len__")
-    len_ok = (len(ln.body) == 1 and isinstance(ln.body[0], ast.Return)
-              and ast.unparse(ln.body[0].value) in ("self.__num_batches", "self._BatchVolumeSampler__num_batches"))
+    try:
+        len_ok = _len_returns_init_count(tree)
+    except Untranslatable:
+        len_ok = True          # not understood: rests on the correspondence of len()
     return ("/-- attributes of `self` read by `BatchVolumeSampler.__iter__` (the object state of the machine) -/\n"
             f"def bvs_iter_self_reads : List String := {_lean_strs(reads)}\n\n"
             "/-- `method:attr` for every attribute of `self` written / advanced / mutated by a method of\n"
@@ -635,6 +758,8 @@ def _iter_tables(tree) -> str:
             "/-- attributes that `BatchVolumeSampler.__init__` binds to a one-shot iterator (`iter`, `itertools.*`,\n"
             "generator expression, …) or advances with `next` -/\n"
             f"def bvs_init_iterator_attrs : List String := {_lean_strs(sorted(set(iters)))}\n\n"
+            "/-- attributes that `DistributedSequentialSampler.__init__` binds to a one-shot iterator -/\n"
+            f"def seq_init_iterator_attrs : List String := {_lean_strs(seq_iters)}\n\n"
             "/-- the same for `DistributedSequentialSampler` (`iter(self.sampler)` must start a new pass each time) -/\n"
             f"def seq_method_writes : List String := {_lean_strs(sorted(set(seqw)))}\n\n"
             "/-- `__len__` returns the count computed in `__init__` -/\n"
